@@ -67,7 +67,7 @@ ANCHORS = [
     "trimesh/transformations.py:rotation_matrix",
 ]
 SHARDS = {"quick": 1, "thorough": 8}
-BUDGET = {"quick": 45, "thorough": 300}
+BUDGET = {"quick": 55, "thorough": 300}
 MIN_EVENTS = {"quick": 3000, "thorough": 12000}
 ASSUMPTIONS = [
     "copy.deepcopy(SceneGraph) preserves the state of every cache (checked: cached entries and the "
@@ -258,8 +258,14 @@ def install_contracts(run):
     icontract.invariant(edges_match_parents, error=StaleEdgeData)(EF)
     icontract.invariant(hash_memo_fresh, error=StaleHashMemo)(EF)
     changed = [k for k in EF.__dict__ if EF.__dict__[k] is not before.get(k)]
+    # the read-side methods are swapped back to the plain functions while an observation sweep
+    # runs (the conditions would return at once there anyway; this only saves the wrapper cost)
+    for k in ("__hash__", "shortest_path", "nodes", "children"):
+        SWAP[k] = (before[k], EF.__dict__[k])
+    SWAP["class"] = EF
 
     def uninstall():
+        SWAP.clear()
         for k in changed:
             if k in before:
                 setattr(EF, k, before[k])
@@ -270,6 +276,28 @@ def install_contracts(run):
                     pass
 
     return uninstall
+
+
+SWAP = {}
+
+
+class plain_reads:
+    """Context: EnforcedForest read methods without the invariant wrappers (observation only)."""
+
+    def __enter__(self):
+        EF = SWAP.get("class")
+        if EF is not None:
+            for k, pair in SWAP.items():
+                if k != "class":
+                    setattr(EF, k, pair[0])
+
+    def __exit__(self, *a):
+        EF = SWAP.get("class")
+        if EF is not None:
+            for k, pair in SWAP.items():
+                if k != "class":
+                    setattr(EF, k, pair[1])
+        return False
 
 
 def _contract_report(name, syms, detail):
@@ -387,7 +415,9 @@ def apply(run, st, op, case):
                 raise _Abort()
             if m.remove_node(op["node"]):
                 st.changed += 1
-            st.ghost.discard(op["node"])
+            # a name that entered node_data through a failed get() stays in st.ghost: listings
+            # cached while it was there can survive its removal (the forest hash returns to the
+            # value memoised before the insertion, which never reset it)
             st.geom_removed.discard(op["node"])
         elif k == "remove_geometries":
             names = op["names"]
@@ -587,6 +617,11 @@ def report_pair(run, st, m, query, frm, to, obs, verdict, case, extra=""):
 
 def sweep(run, st, g, m, ghost, geom_removed, order, case, where="main", absent=True):
     """Full observation of graph `g` against model `m`.  Returns number of mismatches."""
+    with plain_reads():
+        return _sweep(run, st, g, m, ghost, geom_removed, order, case, where, absent)
+
+
+def _sweep(run, st, g, m, ghost, geom_removed, order, case, where="main", absent=True):
     run.count("sweeps")
     names = list(m.nodes)
     view = _View(st, ghost, geom_removed)
@@ -631,7 +666,7 @@ def sweep(run, st, g, m, ghost, geom_removed, order, case, where="main", absent=
         except (ValueError, KeyError) as e:
             if all_connected:
                 bad += 1
-                if ghost & set(_raw_nodes(g)):
+                if ghost & (set(_raw_nodes(g)) | _listed(g)):
                     feats = "hist=absent_frame_queried"
                 else:
                     feats = explain(view, m, pairwise=False)
@@ -765,6 +800,13 @@ def _same_obs(a, b):
 
 def _raw_nodes(g):
     return list(g.transforms.node_data.keys())
+
+
+def _listed(g):
+    try:
+        return set(g.nodes)
+    except Exception:
+        return set()
 
 
 def check_laws(names, ok):
